@@ -20,6 +20,95 @@ func runC13(c *Check, tier string) {
 	ruleR13b(c, g)
 	ruleR13c(c, "R13c")
 	ruleR13d(c)
+	ruleRecordCacheIndependent(c, "R13e")
+}
+
+// ruleRecordCacheIndependent: nothing that is stored into the (hashed) output
+// record may depend — by data or by control — on whether a blob already exists
+// in the cache: re-executing a target that reproduces identical outputs must
+// reproduce the identical output hash (early cut-off for its dependants).
+func ruleRecordCacheIndependent(c *Check, rule string) {
+	c.Rule(rule, "values stored into fields of the persisted output records by the file/directory handlers do not depend, by data flow or by being computed only on one branch of a cache-existence test, on the state of the cache (Cas.Exists / backend.Exists)", 6)
+	_, wreach := handlerFuncs(c, "Write")
+	inScope := func(fn *ssa.Function) bool {
+		return wreach[fn] && engine.InPackage(fn, "output/handlers") && !strings.Contains(c.P.FuncName(engine.TopFunc(fn)), "Docker")
+	}
+	isExistsCall := func(call ssa.CallInstruction) bool {
+		n := engine.CalleeName(call)
+		return strings.HasSuffix(n, "caching.Cas).Exists") || strings.HasSuffix(n, "CacheBackend).Exists") || strings.HasSuffix(n, "TargetResultCache).Has")
+	}
+	existsAtom := func(a engine.Atom) bool {
+		for _, o := range engine.Origins(a.V) {
+			if call, _ := engine.CallOf(o); call != nil && isExistsCall(call) {
+				return true
+			}
+		}
+		return false
+	}
+	// control dependence on an existence test: some branch on an Exists-derived value has one
+	// successor from which the instruction is unavoidable and another from which it can be avoided
+	ctrlDep := func(in ssa.Instruction) bool {
+		fn := in.Parent()
+		isRet := func(x ssa.Instruction) bool { _, r := x.(*ssa.Return); return r }
+		for _, b := range fn.Blocks {
+			if len(b.Succs) != 2 {
+				continue
+			}
+			a, ok := engine.EdgeAtom(b, 0)
+			if !ok || !existsAtom(a) {
+				continue
+			}
+			unavoidable := [2]bool{}
+			reaches := [2]bool{}
+			for i, sb := range b.Succs {
+				first := sb.Instrs[0]
+				canAvoid, _ := engine.PathExists(fn, first, isRet, engine.PathQuery{CutInstr: engine.IsInstr(in)})
+				if isRet(first) {
+					canAvoid = true
+				}
+				r, _ := engine.PathExists(fn, first, engine.IsInstr(in), engine.PathQuery{})
+				reaches[i] = r || first == in
+				unavoidable[i] = !canAvoid && reaches[i]
+			}
+			if (unavoidable[0] && !unavoidable[1]) || (unavoidable[1] && !unavoidable[0]) {
+				return true
+			}
+		}
+		return false
+	}
+	types_ := []string{"FileOutput", "DirectoryOutput", "Digest", "FileNode", "DirectoryNode", "SymlinkNode", "Tree", "Directory"}
+	for _, tn := range types_ {
+		t := c.P.Type("proto/gen", tn)
+		if t == nil {
+			continue
+		}
+		for _, key := range flattenFields(t) {
+			for _, st := range storesToField(c, key) {
+				if !inScope(st.Parent()) {
+					continue
+				}
+				okey := "record-independent-of-cache/" + key.String() + "/" + c.P.FuncName(st.Parent())
+				back := c.G.Backward([]Node{st.Val}, func(e *engine.Edge) bool {
+					return e.Via != nil && inScope(e.Via.Parent()) && e.Kind != engine.EField && !isContentEdge(e)
+				})
+				bad := ""
+				if ctrlDep(st) {
+					bad = "the field is only stored on one branch of a cache-existence test"
+				}
+				for n, e := range back.Parent {
+					if call, ok := n.(*ssa.Call); ok && isExistsCall(call) {
+						bad = "the value derives from the result of " + engine.CalleeName(call)
+					}
+					if e != nil && e.Via != nil && inScope(e.Via.Parent()) && (e.Kind == engine.EExtWrite || e.Kind == engine.EStore || e.Kind == engine.EAssign) {
+						if ctrlDep(e.Via) {
+							bad = "a contribution to the value (" + c.P.InstrPos(e.Via) + ") is only made on one branch of a cache-existence test"
+						}
+					}
+				}
+				c.Require(bad == "", rule, okey, "independent of cache state", "the recorded (and hashed) value depends on whether blobs already exist in the cache — "+bad+": a re-executed target that reproduces identical outputs gets a different output hash, so its dependants are re-executed needlessly", c.P.InstrPos(st))
+			}
+		}
+	}
 }
 
 func ruleR13a(c *Check, g *gateInfo) {
